@@ -7,6 +7,7 @@ import Dtaiverif.Model.Bounds
 import Dtaiverif.Model.Compact
 import Dtaiverif.Model.Path
 import Dtaiverif.Model.Matrix
+import Dtaiverif.Model.Dba
 
 open Lean
 
@@ -201,10 +202,25 @@ def opBounds (j : Json) : Except String Json := do
     | .abs => lbKeogh (fun a b => (a - b).natAbs) s1 s2 r c w
   return Json.mkObj [("ed", costJ ed), ("lb", Json.num (s.scale * lb))]
 
+/-- op "dba": one DBA step (sums and counts per position and coordinate) -/
+def opDba (j : Json) : Except String Json := do
+  let s ← rawSettings j
+  let c ← getIntArr j "c"
+  let ser ← (j.getObjVal? "series") >>= (·.getArr?)
+  let series ← ser.toList.mapM fun x => do
+    let a ← x.getArr?
+    a.mapM (·.getInt?)
+  let m ← (j.getObjVal? "mask") >>= (·.getArr?)
+  let mask := m.toList.map fun x => match x with | Json.bool b => b | _ => false
+  let out := dbaStep s c series mask
+  return Json.mkObj [("cells", Json.arr (out.map fun row =>
+    Json.arr (row.map fun sc => Json.arr #[Json.num sc.1, Json.num sc.2]).toArray).toArray)]
+
 def dispatch (j : Json) : Except String Json := do
   let op ← (j.getObjVal? "op") >>= (·.getStr?)
   let res ← match op with
     | "dtw" => opDtw j
+    | "dba" => opDba j
     | "bounds" => opBounds j
     | "path" => opPath j
     | "matrixplan" => opMatrixPlan j
